@@ -127,6 +127,23 @@ def run(ctx):
             continue
         seen.add(k)
         cases.append({"id": len(cases), "prog": prog, "q": q, "mode": mode})
+    # top-level answer ORDER for predicates that consist of facts only (ground and non-ground, arity 3): this is where the
+    # clause index decides the order in which candidate clauses are tried
+    for _ in range(ctx.pick(400, 5000)):
+        prog = []
+        for _ in range(rng.randint(3, 7)):
+            def arg3():
+                r = rng.random()
+                if r < 0.25:
+                    return T.V(rng.randint(1, 2))
+                return rng.choice(CONST[:4])
+            prog.append({"h": T.Cm("t", arg3(), arg3(), rng.choice(CONST + [T.I(i) for i in range(3, 9)])), "b": []})
+        q = T.Cm("t", *[rng.choice(CONST[:4] + [T.V(5), T.V(6)]) for _ in range(2)], T.V(7))
+        k = json.dumps([prog, q], sort_keys=True)
+        if k in seen:
+            continue
+        seen.add(k)
+        cases.append({"id": len(cases), "prog": prog, "q": q, "mode": "seqtop"})
     # add the fixed index shape as findall cases
     for a in ("a", "b", "c"):
         prog = [{"h": T.Cm("p", *args), "b": []} for (_, args) in fixed[0][1]]
